@@ -171,15 +171,35 @@ def region(resolver, R0, table, stats):
 
 # ---------------------------------------------------------------------------------------------
 
+def same_sets(A, B, shown):
+    """concrete candidate sets agree: equal apart from the text already typed, which matters only next to other candidates
+    (alone it changes nothing for the user; next to others its absence makes the shell complete past it)"""
+    A, B = set(A), set(B)
+    A0, B0 = A - {shown}, B - {shown}
+    if A0 != B0:
+        return False
+    if A0 and ((shown in A) != (shown in B)):
+        return False
+    return True
+
+
 def seteq(A, B, dontcare=None):
-    """A and B are equal as sets, ignoring elements equal to `dontcare`."""
+    """A and B are equal as sets; an element equal to `dontcare` (the text already typed) may be missing on either side
+    only if there is no other element."""
     if all(isinstance(x, str) for x in A) and all(isinstance(x, str) for x in B) and (dontcare is None or isinstance(dontcare, str)):
-        return (set(A) - {dontcare}) == (set(B) - {dontcare})
+        return same_sets(A, B, dontcare) if dontcare is not None else set(A) == set(B)
     def dc(x):
         return sym.eq(x, dontcare) if dontcare is not None else False
     fa = [sym.disj([dc(a)] + [sym.eq(a, b) for b in B]) for a in A]
     fb = [sym.disj([dc(b)] + [sym.eq(a, b) for a in A]) for b in B]
-    return sym.conj(fa + fb)
+    base = sym.conj(fa + fb)
+    if dontcare is None:
+        return base
+    other = sym.disj([sym.neg(dc(a)) for a in A])
+    in_a = sym.disj([dc(a) for a in A])
+    in_b = sym.disj([dc(b) for b in B])
+    both = sym.disj([sym.conj([in_a, in_b]), sym.conj([sym.neg(in_a), sym.neg(in_b)])])
+    return sym.conj([base, sym.disj([sym.neg(other), both])])
 
 
 def pid_of(cmdtext):
@@ -334,7 +354,7 @@ def attribute(resolver, R0, table, ws, wb, real_set, shown, devs=KNOWN_DEVS, rea
             for choice in (0, 1, 2):
                 ctx = refsym.Ctx(lambda c: bool(c), table, [], combo, choice)
                 _, c = refsym.complete(ctx, resolver, R0, ws[:-1], ws[-1], wb)
-                if set(c) - {shown} == real_set - {shown}:
+                if same_sets(c, real_set, shown):
                     if real_log is not None and log_ok(real_log, ctx) is not True:
                         continue
                     return combo
@@ -457,7 +477,7 @@ def _analyse(job, g, probes, text):
                     res['cex_checked'] += 1
                 if job.get('only_matched') and not matched:
                     continue
-                if (set(rreply) - {shown}) != (set(expected) - {shown}):
+                if not same_sets(rreply, expected, shown):
                     what = ('bash offers %r for words %r + typed %r (COMP_WORDBREAKS %r); the grammar prescribes %r'
                             % (sorted(set(rreply)), ws[:-1], ws[-1], wb, sorted(set(expected))))
                     combo = attribute(resolver, R0, table, ws, wb, set(rreply), shown)
@@ -494,7 +514,7 @@ def _analyse(job, g, probes, text):
             for (wbx, ws), (rrc, rreply, rlog) in zip(cc, real):
                 matched, expected, cctx, shown = concrete_reference(resolver, R0, table, ws[:-1], ws[-1], wbx)
                 res['validated'] += 1
-                if (set(rreply) - {shown}) != (set(expected) - {shown}):
+                if not same_sets(rreply, expected, shown):
                     combo = attribute(resolver, R0, table, ws, wbx, set(rreply), shown)
                     key = '+'.join(combo) if combo else 'special-characters'
                     what = ('bash offers %r for words %r + typed %r (COMP_WORDBREAKS %r); the grammar prescribes %r'
